@@ -4,7 +4,9 @@ source.
 
 `tools/skelgen` (group `p2p`) extracts on every check run the synchronisation skeleton of every method
 of `MessageProtocol` (pkg/p2p/message_protocol.go: `sendRequestMessage`, `onResponse`, `request`,
-`onRequest`, `respond`, `send`, `RequestFrom`, `Broadcast`, `start`, …) into `Gen/SkeletonsP2P.lean`.
+`onRequest`, `respond`, `send`, `RequestFrom`, `Broadcast`, `start`, …) into `Gen/SkeletonsP2P.lean`,
+together with what these methods call under a lock of their own: the rate limiter (ratelimit.go, see
+Props/C17_RateSkel.lean), `Peer.addPenalty` / `banPeer` and the connection gater (conngater.go).
 The facts the model of `Model/ReqResp.lean` (fixed version `step`) relies on are obligations here:
 
   * the response channel is created with capacity ≥ 1           `C17_gen_response_channel_buffered`
@@ -24,6 +26,15 @@ in the same skeleton language, violates the blocking-in-critical-section, regist
 capacity checks (`C17_gen_original_*`); the concrete lost-response / deadlock executions of the original
 are in Props/C17.lean.
 
+Criterion (3) "no possibly blocking operation inside a critical section" does NOT hold as such for the
+entry points that reach `rateLimit.checkLimit` (`onRequest`, `onResponse`, `start`): `checkLimit` calls
+`Peer.addPenalty` — which may call `Peer.Disconnect`, a network operation — while it holds the counter
+mutex (`C17_rate_checkLimit_penalty_under_lock` in Props/C17_RateSkel.lean). What holds for them is
+stated in `C17_gen_all_entries_ok`: every other criterion, nothing blocking is ever done under `resMu`,
+and `Peer.Disconnect` under the counter mutex alone is the only blocking operation inside any critical
+section. The deadlock-freedom theorem is therefore stated for the skeletons in which `Peer.Disconnect`
+is an ordinary call that returns (`cfgE`).
+
 Order properties are evaluated on the *event runs* of one body (`Locks.evRuns`: leaf actions in program
 order, calls kept as events); `sendRequestMessage` is loop-free, so the enumeration is exhaustive
 (`C17_gen_sendRequestMessage_loop_free`, `C17_skel_loopFree_runs_exhaustive`). The meaning of the flag
@@ -39,8 +50,15 @@ namespace C17Skel
 /-- configuration regenerated from the source: call table, guards (`resCh ↦ resMu`), lock order -/
 def cfg : Cfg := ⟨Gen.SkeletonsP2P.table, Gen.SkeletonsP2P.guards, Gen.SkeletonsP2P.lockOrder⟩
 
+/-- a function of ratelimit.go (a method of `rateLimit` or the plain function `rateLimiterHandler`):
+these entry points have their own obligations in Props/C17_RateSkel.lean -/
+def isRate (f : String) : Bool := "rateLimit".toList.isPrefixOf f.toList
+
+/-- the regenerated entry points of this file: the message protocol, `Peer.addPenalty` / `banPeer` and
+the connection gater (the rate limiter is analysed inlined into `onRequest` / `onResponse` here, and
+standalone in Props/C17_RateSkel.lean) -/
 def entryTable : Table :=
-  Gen.SkeletonsP2P.table.filter (fun e => Gen.SkeletonsP2P.entries.contains e.1)
+  Gen.SkeletonsP2P.table.filter (fun e => Gen.SkeletonsP2P.entries.contains e.1 && !isRate e.1)
 
 def resCh : String := "MessageProtocol.resCh"
 def resMu : String := "MessageProtocol.resMu"
@@ -54,6 +72,21 @@ def isUnregister : Act → Bool := Act.isDel resCh
 def isSend : Act → Bool := Act.isCall sendFn
 /-- creation of an unbuffered channel -/
 def isMakeUnbuffered (a : Act) : Bool := a.isMakeChan && !a.isMakeChanGe 1
+
+def counterMu : String := "rpcMessageCounter.mu"
+/-- the network operation called (through `Peer.addPenalty`) with a counter mutex held -/
+def disconnect : String := "Peer.Disconnect"
+
+/-- the entry points that reach `rateLimit.checkLimit`, hence `Peer.Disconnect` under the counter mutex -/
+def penaltyUnderLock : List String :=
+  ["MessageProtocol.onRequest", "MessageProtocol.onResponse", "MessageProtocol.start"]
+
+/-- the regenerated configuration in which `Peer.Disconnect` is an ordinary call that returns -/
+def cfgE : Cfg :=
+  ⟨Gen.SkeletonsP2P.table.eraseBlockingCalls [disconnect], Gen.SkeletonsP2P.guards, Gen.SkeletonsP2P.lockOrder⟩
+
+def entryTableE : Table :=
+  cfgE.tbl.filter (fun e => Gen.SkeletonsP2P.entries.contains e.1 && !isRate e.1)
 
 /-- the methods the property names -/
 def required : List String :=
@@ -179,12 +212,26 @@ theorem C17_skel_loopFree_runs_exhaustive (u n : Nat) (k : List Act) (h : loopFr
 
 /-! ## obligations over the regenerated skeletons -/
 
-/-- every regenerated entry point of the message protocol satisfies all criteria of Model/Locks:
+/-- every regenerated entry point of the p2p group satisfies all criteria of Model/Locks:
 well-formed (no unknown construct, every function ends holding nothing), (1) no re-entrant
-acquisition, (2) lock order, (3) no blocking communication inside a critical section, (4) `resCh` is
-read under `resMu` and written / deleted under it exclusively -/
+acquisition, (2) lock order `resMu` < `rpcMessageCounter.mu` < `connectionGater.mutex`, (3) no blocking
+communication inside a critical section, (4) `resCh` is read under `resMu` and written / deleted under
+it exclusively (likewise the rate counters and the gater tables under their mutexes) — except that for
+the entry points reaching `checkLimit` (3) is replaced by: nothing blocking under `resMu`, and the only
+blocking operation inside a critical section is `Peer.Disconnect` with the counter mutex alone held. -/
 theorem C17_gen_all_entries_ok :
-    entryTable.all (fun e => criteria C17Skel.cfg e.2) = true := by
+    entryTable.all (fun e =>
+      if penaltyUnderLock.contains e.1 then
+        C20.criteriaExceptBlocking C17Skel.cfg e.2 && noBlockingHolding C17Skel.cfg resMu e.2 &&
+          blockingOnly C17Skel.cfg [disconnect] [counterMu] e.2
+      else criteria C17Skel.cfg e.2) = true := by
+  decide +kernel
+
+/-- with `Peer.Disconnect` taken as an ordinary call that returns, every entry point satisfies all
+criteria, (3) included -/
+theorem C17_gen_all_entries_ok_modulo_disconnect :
+    entryTableE.all (fun e => criteria cfgE e.2) = true ∧
+    entryTableE.map (·.1) = entryTable.map (·.1) := by
   decide +kernel
 
 /-- the quantification is not vacuous: the methods the property names are regenerated entry points,
@@ -204,11 +251,12 @@ theorem C17_gen_no_reentrant_resMu :
     entryTable.all (fun e => noReentrantAcquire C17Skel.cfg e.2) = true := by
   decide +kernel
 
-/-- **`onResponse` never blocks while holding `resMu`** (criterion 3): it does take the lock, it does
-deliver under the lock — by a non-blocking `trySend` — and neither it nor anything it calls performs a
-possibly blocking send / receive / wait inside the critical section. -/
+/-- **`onResponse` never blocks while holding `resMu`** (criterion 3 for `resMu`): it does take the
+lock, it does deliver under the lock — by a non-blocking `trySend` — and neither it nor anything it calls
+performs a possibly blocking send / receive / wait / network call while `resMu` is held (the rate-limit
+check in front of the critical section is done before `resMu` is taken). -/
 theorem C17_gen_onResponse_no_blocking_under_lock :
-    noBlockingInCS C17Skel.cfg Gen.SkeletonsP2P.MessageProtocol_onResponse = true ∧
+    noBlockingHolding C17Skel.cfg resMu Gen.SkeletonsP2P.MessageProtocol_onResponse = true ∧
     allEvents (fun a => !a.isBlocking) 1 Gen.SkeletonsP2P.MessageProtocol_onResponse = true ∧
     someRunHas (fun a => match a with | .trySend _ => true | _ => false) 1
       Gen.SkeletonsP2P.MessageProtocol_onResponse = true ∧
@@ -296,18 +344,21 @@ theorem C17_gen_requester_waits_outside_lock :
     someRunHas Act.isBlocking 1 Gen.SkeletonsP2P.MessageProtocol_sendRequestMessage = true := by
   decide
 
-/-- **Deadlock freedom of the request/response layer** (instance of `C20_criteria_imply_deadlock_free`):
-any number of goroutines running paths of the regenerated entry points (requesters, response and request
-stream handlers) under any schedule never reach a state in which some goroutine waits for `resMu`
-forever: in every reachable state some thread can step without a communication partner, or every thread
-is finished or parked at a communication (the wait for the response / timeout / context) holding no lock. -/
+/-- **Deadlock freedom of the request/response layer** (instance of `C20_criteria_imply_deadlock_free`),
+`Peer.Disconnect` being an ordinary call that returns: any number of goroutines running paths of the
+regenerated entry points (requesters, response and request stream handlers with the rate-limit calls
+inlined, the connection gater; with the rate limiter's reset goroutine in addition:
+`C17_rate_deadlock_free`) under any schedule never reach a state in which some goroutine waits
+for `resMu`, a counter mutex or the gater mutex forever: in every reachable state some thread can step
+without a communication partner, or every thread is finished or parked at a communication (the wait for
+the response / timeout / context / ticker) holding no lock. -/
 theorem C17_gen_deadlock_free (u : Nat) (ps : List Path)
-    (hps : ∀ p ∈ ps, ∃ e ∈ entryTable, IsThreadPath Gen.SkeletonsP2P.table u e.2 p)
+    (hps : ∀ p ∈ ps, ∃ e ∈ entryTableE, IsThreadPath cfgE.tbl u e.2 p)
     (st : State) (hr : Reachable (initState ps) st) :
     deadlocked st = false ∧ (quiescent st = true ∨ ∃ i, canStepInternal st i = true) := by
-  have hall := C17_gen_all_entries_ok
+  have hall := C17_gen_all_entries_ok_modulo_disconnect.1
   simp only [List.all_eq_true] at hall
-  have hprog := C20_criteria_imply_deadlock_free C17Skel.cfg u (entryTable.map (·.2))
+  have hprog := C20_criteria_imply_deadlock_free cfgE u (entryTableE.map (·.2))
     (by
       intro s hs
       obtain ⟨e, he, rfl⟩ := List.mem_map.mp hs
@@ -345,7 +396,8 @@ def sendRequestMessage : Skel :=
         .lock "MessageProtocol.resMu", .read "MessageProtocol.resCh", .del "MessageProtocol.resCh",
         .unlock "MessageProtocol.resMu", .ret]]]
 
-/-- original `onResponse`: a plain blocking `ch <- response` with `resMu` held (deferred unlock) -/
+/-- original `onResponse`: a plain blocking `ch <- response` with `resMu` held (deferred unlock); the
+rate-limiter calls in front of the critical section, identical in both versions, are left out -/
 def onResponse : Skel :=
   [.choice [[.ret], []],
    .choice [[.call "MessageProtocol.banRemotePeer", .ret], []],
@@ -378,6 +430,7 @@ end C17Skel.Orig
 section of `resMu` (every other criterion holds for it) -/
 theorem C17_gen_original_blocks_under_lock :
     noBlockingInCS C17Skel.Orig.cfg C17Skel.Orig.onResponse = false ∧
+    noBlockingHolding C17Skel.Orig.cfg resMu C17Skel.Orig.onResponse = false ∧
     wellFormed C17Skel.Orig.cfg C17Skel.Orig.onResponse = true ∧
     noReentrantAcquire C17Skel.Orig.cfg C17Skel.Orig.onResponse = true ∧
     locksetOk C17Skel.Orig.cfg C17Skel.Orig.onResponse = true ∧
@@ -420,9 +473,9 @@ example :
 /-- the hypotheses of `C17_gen_deadlock_free` are satisfiable: a complete path of the regenerated
 `sendRequestMessage` (register, send, wait, unregister) and one of `onResponse` -/
 example :
-    (∃ p ∈ bodyPaths Gen.SkeletonsP2P.table 0 40 Gen.SkeletonsP2P.MessageProtocol_sendRequestMessage,
+    (∃ p ∈ bodyPaths cfgE.tbl 0 40 Gen.SkeletonsP2P.MessageProtocol_sendRequestMessage,
       p.contains (.acq "MessageProtocol.resMu") = true ∧ p.contains (.block "ch") = true) ∧
-    (∃ p ∈ bodyPaths Gen.SkeletonsP2P.table 0 40 Gen.SkeletonsP2P.MessageProtocol_onResponse,
+    (∃ p ∈ bodyPaths cfgE.tbl 1 60 Gen.SkeletonsP2P.MessageProtocol_onResponse,
       p.contains (.acq "MessageProtocol.resMu") = true ∧ p.contains (.rel "MessageProtocol.resMu") = true) := by
   decide +kernel
 
